@@ -170,7 +170,7 @@ func TestVerifShachain(t *testing.T) {
 		return
 	}
 	master := vNewRng(vSeed())
-	ncases := vCases(120, 4000)
+	ncases := vCases(120, 2000)
 
 	for ci := 0; ci < ncases; ci++ {
 		r := master.fork(uint64(ci))
@@ -212,6 +212,29 @@ func TestVerifShachain(t *testing.T) {
 					k = 0
 					break caseBody
 				}
+				// Directed test of every single bucket comparison of
+				// AddNextEntry: start right before an index with j
+				// trailing zeros (k = 2^j-1: buckets 0..j-1 are all
+				// compared) and damage exactly one bucket of the loaded
+				// store; the correct next secret must then be refused.
+				// (A wrong *secret* can never single out a higher
+				// bucket: it already fails at bucket 0.)
+				if r.intn(3) == 0 {
+					j = 1 + uint(r.intn(46))
+					k = (uint64(1) << j) - 1
+					enc, err = vSynthStore(prod, k)
+					if err == nil && int(enc[0]) >= int(j) {
+						kind = "tamper"
+						off := 1 + 40*r.intn(int(j))
+						if r.intn(4) == 0 {
+							// wrong index in the bucket
+							enc[off+7] ^= 1 << uint(r.intn(3))
+						} else {
+							bit := r.intn(256)
+							enc[off+8+bit/8] ^= 1 << (bit % 8)
+						}
+					}
+				}
 				s2, err := NewRevocationStoreFromBytes(bytes.NewReader(enc))
 				ops = append(ops, vOp{"load", hx(enc), err == nil})
 				if err != nil {
@@ -225,6 +248,9 @@ func TestVerifShachain(t *testing.T) {
 			nadd := 1 + r.intn(40)
 			if r.intn(8) == 0 {
 				nadd = 64 + r.intn(200)
+			}
+			if kind == "tamper" {
+				nadd = 2
 			}
 			var last []byte
 			// 60% of the cases are clean runs; the others make 1-3 corruption
@@ -398,8 +424,74 @@ func TestVerifShachain(t *testing.T) {
 		})
 	}
 
+	vTamperSweep(out, master)
 	if vTier() == "thorough" {
 		vExhaustive(t, out, master)
+	}
+}
+
+// vTamperSweep singles out every one of the 47 bucket comparisons of
+// AddNextEntry: the store a node holds after 2^47-1 secrets (next index has
+// 47 trailing zeros, so buckets 0..46 are all compared) is loaded with exactly
+// one damaged bucket tb; the correct next secret must be refused.  tb = 47 is
+// the undamaged control, which must be accepted.
+func vTamperSweep(out *vWriter, master *vrng) {
+	const j = 47
+	for tb := 0; tb <= j; tb++ {
+		r := master.fork(uint64(2000000 + tb))
+		var root chainhash.Hash
+		copy(root[:], r.bytes(32))
+		prod := NewRevocationProducer(root)
+		k := (uint64(1) << j) - 1
+		var ops []vOp
+		kind := "tamper"
+		enc, err := vSynthStore(prod, k)
+		if err != nil {
+			ops = append(ops, vOp{"prod", hx(root[:]), k, nil})
+			out.emit(map[string]any{"case": 2000000 + tb, "kind": kind,
+				"k": 0, "nbuckets": 0, "ops": ops, "aborted": "producer"})
+			continue
+		}
+		if tb < j {
+			off := 1 + 40*tb
+			if r.intn(4) == 0 {
+				enc[off+7] ^= 1 << uint(r.intn(3))
+			} else {
+				bit := r.intn(256)
+				enc[off+8+bit/8] ^= 1 << (bit % 8)
+			}
+		} else {
+			kind = "far"
+		}
+		store, err := NewRevocationStoreFromBytes(bytes.NewReader(enc))
+		ops = append(ops, vOp{"load", hx(enc), err == nil})
+		if err != nil {
+			out.emit(map[string]any{"case": 2000000 + tb, "kind": kind,
+				"k": 0, "nbuckets": 0, "ops": ops, "aborted": "load"})
+			continue
+		}
+		h, err := prod.AtIndex(k)
+		if err != nil {
+			ops = append(ops, vOp{"prod", hx(root[:]), k, nil})
+		} else {
+			err = store.AddNextEntry(h)
+			ops = append(ops, vOp{"add", hx(h[:]), err == nil})
+			if err == nil {
+				k++
+			}
+			for _, v := range []uint64{k - 1, k, (uint64(1) << j) - 2} {
+				res, err := store.LookUp(v)
+				if err != nil {
+					ops = append(ops, vOp{"lookup", v, nil})
+				} else {
+					ops = append(ops, vOp{"lookup", v, hx(res[:])})
+				}
+			}
+		}
+		out.emit(map[string]any{
+			"case": 2000000 + tb, "kind": kind, "k": k,
+			"nbuckets": store.lenBuckets, "ops": ops, "aborted": "",
+		})
 	}
 }
 
